@@ -4,13 +4,15 @@
    It also creates the scratch worktrees <wave-dir>/<Cxx>/wt of /repo HEAD.  Nothing under /verif is shown to the agents."""
 import os, sys, json, re, subprocess
 V = os.path.dirname(os.path.dirname(os.path.abspath(__file__)))
+import os as _os
+SHIFT = int(_os.environ.get('SEED_MOTIVE_SHIFT', '0'))
 MOTIVES = [
  'a lint / modernisation clean-up (f-strings, `==` vs `is`, comprehension or `enumerate` rewrites, `dict.get` / `setdefault`, `sorted` vs `.sort`, integer vs true division, default arguments, removing an "unused" variable or a "redundant" copy, replacing a hand-written loop by a library call whose corner cases differ)',
  'a portability change (open() with or without encoding / newline arguments, os.linesep, text vs binary mode, locale-dependent functions, path handling, Windows consoles, Python-version differences in str / float / random behaviour)',
  'hardening of error handling (a try/except that swallows or re-routes an error, a new validation that rejects or silently drops legal input, a retry, a default value substituted for a failure)',
  'a small new feature or option whose default is supposed to keep the old behaviour but does not in some corner (a new CLI flag, a new config field, a new output format, an environment variable)',
 ]
-CLAUSE = {pid: 'the change should look like ' + MOTIVES[i % len(MOTIVES)] for i, pid in enumerate(['C%02d' % k for k in range(1, 21)])}
+CLAUSE = {pid: 'the change should look like ' + MOTIVES[(i + SHIFT) % len(MOTIVES)] for i, pid in enumerate(['C%02d' % k for k in range(1, 21)])}
 def used():
     out = {}
     for line in open(os.path.join(V, 'DESIGN.md')):
